@@ -39,7 +39,7 @@ def run(tier):
     out = Outcome(PROP, tier, 'exploration')
     rng = random.Random(seed())
     versions = VERSIONS if tier == 'thorough' else [rng.choice(VERSIONS[:6]), rng.choice(VERSIONS[6:])]
-    progs = _rel.programs(out, tier, PROP, versions, 2500 if tier == 'thorough' else 250, rng)
+    progs = _rel.programs(out, tier, PROP, versions, 2500 if tier == 'thorough' else 250, rng, literals=True)
     scratch = Scratch(PROP)
     try:
         traces = []
@@ -74,7 +74,7 @@ def run(tier):
                           {'kind': 'tokens', 'text': t['text'], 'version': t['ver']})
         out.cov(evaluations=len(traces), distinct_nontrivial=len({(t['text'], t['ver']) for t in traces if len(t['cpy']) > 3}),
                 traces_validated_against_impl=acc, reference_accepted=nacc_ref, versions=versions,
-                rule='programs = stdlib chunks of the judging interpreter and their token-level mutations + rendered ParserB '
+                rule='programs = every numeric / string-literal shape (TLC Strings over two literal alphabets, <= 4/5 symbols, as `x = <lit>`) + stdlib chunks of the judging interpreter and their token-level mutations + rendered ParserB '
                      'sentences (two spellings), kept iff interpreter V compiles them and its tokenize accepts them without ERRORTOKEN; one (CPython, parso) token '
                      'stream pair per program; non-trivial = more than 3 reference tokens; distinct by (text, version)')
         for t in traces[:2]:
